@@ -18,6 +18,8 @@ CONSTANTS
   BAbort = 2
   BSendFail = 1
   Depth = 7
+  Locks = FALSE
+  HandlerReadsState = FALSE
 INIT Init
 NEXT Next
 INVARIANT TypeOK
